@@ -38,4 +38,12 @@ def violation (exp : Expect) (o : Outcome) : Option String :=
     | .exclude => if o.v == "Ok" then some "validator-accepts-excluded-mode" else none
     | .any => none
 
+/-- AArch64: `a64::InstInternal::validate` accepts everything (no validator is implemented), so the only clause of the
+    property that says something there is "switching validation on changes neither the success nor the bytes":
+    `e0` / `e1` = the assembler's answer for the same instruction without / with `kValidateAssembler`. -/
+def violationA64 (e0 e1 : String × String) : Option String :=
+  if e0.1 != e1.1 then some "validation-changes-success"
+  else if e0.2 != e1.2 then some "validation-changes-encoding"
+  else none
+
 end AsmjitVerif.X86Agree
